@@ -1,8 +1,9 @@
 """C12 — results are deterministic: same inputs, same output, on every run."""
 from props.common_prog import judge_prog
 
-THEOREM_MODULES = ["Hcl.Theorems.C12", "Hcl.Tie.PinsBuild"]
-THEOREMS = {"Hcl.Theorems.C12": ["C12_verdict_order_independent", "C12_rejected_on_every_run", "C12_diagnostics_order_independent",
+THEOREM_MODULES = ["Hcl.Theorems.C12", "Hcl.Theorems.C12Reorder", "Hcl.Tie.PinsBuild"]
+THEOREMS = {"Hcl.Theorems.C12Reorder": ["C12_reorder_verdict", "C12_reorder_program", "C12_reorder_cycle", "C12_reorder_run", "Program_new_perm_runN", "Program_new_perm_init", "Reorder.processBanks_perm", "Reorder.step1Of_perm"],
+            "Hcl.Theorems.C12": ["C12_verdict_order_independent", "C12_rejected_on_every_run", "C12_diagnostics_order_independent",
                                  "Program_new_errors_order_independent", "resolveConstants_errors_order_independent", "assignmentsToActions_errors_order_independent", "C12_constants_order_independent",
                                  "C12_accepted", "C12_cycle", "C12_run", "C12_report",
                                  "C12_loop_verdict_order_independent", "C12_values_schedule_independent",
@@ -16,7 +17,7 @@ RULE = ("S-PROG (all profiles) and the fault/loop-injection streams with every p
         "each build with fresh random hash seeds in every internal table: all runs must give identical results (every wire "
         "value, register, memory byte and status of every cycle; for rejected programs the same multiset of diagnostic "
         "kinds and names, loop contents excepted); the number of distinct schedules actually observed per program is "
-        "recorded; the multi-fault stream plants two or three independent faulty expressions, all of which every build must report. S-DUMP: the printed state of designs with up to six register banks (several with letters outside PFDEMW, which the code keeps in hash maps) is compared with the one text the model prints. distinct = distinct program texts; non-trivial = programs for which at least two different schedules or "
+        "recorded; the multi-fault stream plants two or three independent faulty expressions, all of which every build must report. S-REORDER: every generated program (one in five with an injected fault) is also run with its statements shuffled and with every declared wire and constant renamed (ASCII, upper-case and non-ASCII names): acceptance, the diagnostics (kinds and names; kinds only under renaming), and every wire value, register, memory byte and status of every cycle must be the same up to the renaming. S-DUMP: the printed state of designs with up to six register banks (several with letters outside PFDEMW, which the code keeps in hash maps) is compared with the one text the model prints. distinct = distinct program texts; non-trivial = programs for which at least two different schedules or "
         "a rejection were observed.")
 
 
@@ -28,6 +29,16 @@ def judge(req, impl, model, spec):
     return j
 
 
+def judge_reorder(req, impl, model, spec):
+    if impl.startswith("REORDER-DIFF") or impl.startswith("RENAME-DIFF"):
+        return {"corr": False, "oracle": False, "key": req, "cats": [impl.split(" ")[0]],
+                "what": ("reordering the statements" if impl.startswith("REORDER") else "renaming the wires") +
+                        " changed the result: " + impl[:600]}
+    j = judge_prog(req, impl, model, spec)
+    j["cats"] = [c for c in j["cats"] if not c.startswith("distinct-schedules")] + ["reordered-and-renamed"]
+    return j
+
+
 def streams(tier, seed):
     q = tier == "quick"
     out = []
@@ -36,6 +47,7 @@ def streams(tier, seed):
     out.append({"name": "prog-fault", "stream": "prog-fault", "count": 400 if q else 15000, "judge": judge})
     out.append({"name": "prog-loop", "stream": "prog-loop", "count": 400 if q else 15000, "judge": judge})
     out.append({"name": "prog-multi", "stream": "prog-multi", "count": 300 if q else 10000, "judge": judge})
+    out.append({"name": "reorder", "stream": "reorder", "count": 400 if q else 20000, "judge": judge_reorder})
     # printed output: the state dump of designs with up to six register banks (letters outside P F D E M W included)
     # must be the one deterministic text the model prints (fixed bank order, sorted letters for the rest)
     from props import C16
